@@ -30,7 +30,7 @@ def PErr.toString : PErr → String
   | .unopened => "DefinitionSyntaxError" | .weirdExit => "DefinitionSyntaxError"
   | .unclosed => "DefinitionSyntaxError" | .unexpectedEnd => "DefinitionSyntaxError"
   | .unknownOp => "DefinitionSyntaxError" | .unexpectedString => "DefinitionSyntaxError"
-  | .assertion => "AssertionError" | .index => "IndexError" | .fuel => "RecursionError"
+  | .assertion => "DefinitionSyntaxError"   /- (F84 repair: the missing-operand guards raise a syntax error, no longer an assert) -/ | .index => "IndexError" | .fuel => "RecursionError"
 
 /-- `_OP_PRIORITY` as an association list (generated from the source) -/
 abbrev Prio := List (String × Int)
